@@ -51,6 +51,14 @@ instance : Arith Rat where
   decLt := fun a b => inferInstanceAs (Decidable (a < b))
   decLe := fun a b => inferInstanceAs (Decidable (a ≤ b))
 
+/-- integers (truncating division): used only for `decide`-style non-vacuity examples -/
+instance : Arith Int where
+  ofNat := fun n => (n : Int)
+  ofSci := fun m s e => if s then (m : Int) / 10 ^ e else (m : Int) * 10 ^ e
+  floor := id
+  decLt := fun a b => inferInstanceAs (Decidable (a < b))
+  decLe := fun a b => inferInstanceAs (Decidable (a ≤ b))
+
 namespace HV
 variable {α : Type}
 
